@@ -227,7 +227,7 @@ def check_rest(ctx, fx):
                     if a.get("k") == "const" and a.get("fn") in fx.fns:
                         cands.append((fx.fns[a["fn"]], a.get("gargs") or []))
                 for h, ga in cands:
-                    if h is not None and depth < 2 and not h.get("is_async") and h["kind"] in ("fn", "assoc_fn") and (h.get("impl_self") or "").startswith("context::") and h["def"] not in WRITERS:
+                    if h is not None and depth < 2 and not h.get("is_async") and h["kind"] in ("fn", "assoc_fn") and ((h.get("impl_self") or "").startswith("context::") or h["def"].startswith("context::")) and h["def"] not in WRITERS:
                         gen = h.get("generics") or []
                         m = {gen[i]: subst(ga[i]) for i in range(min(len(gen), len(ga)))}
 
